@@ -170,6 +170,22 @@ func (d *ltDispatch) reachableUnder(w *World, L string, pos token.Pos) bool {
 // mayFacts: union of the event facts over all blocks reachable when the lifetime is L.
 func (d *ltDispatch) mayFacts(w *World, ev *Events, L string) (Facts, *Flow) {
 	fl := d.flowFor(w, L)
+	// callees that dispatch on the lifetime themselves are followed along the paths of L only
+	// (a per-lifetime copy of the event summaries: the memo is keyed by body)
+	evL := *ev
+	evL.memo, evL.busy = map[evKey]Facts{}, map[evKey]bool{}
+	evL.FlowFor = func(body *ast.BlockStmt) *Flow {
+		for _, fi := range w.Decls {
+			if fi.Decl.Body == body {
+				if d2 := lifetimeDispatch(w, fi); d2.dispatches() {
+					return d2.flowFor(w, L)
+				}
+				return nil
+			}
+		}
+		return nil
+	}
+	ev = &evL
 	sol := ev.Solve(fl, false)
 	all := Facts{}
 	for _, b := range fl.G.Blocks {
